@@ -64,6 +64,12 @@ func c20child(args []string) {
 		} else {
 			cfg["appender.f.layout.type"], cfg["appender.g.layout.type"], cfg["appender.h.layout.type"] = lt, lt, lt
 		}
+	case "shared-file":
+		// the File appender of the synchronous logger is ALSO referenced by an asynchronous logger serving another tag
+		// (appenders are shared objects); the synchronous logger's guarantee does not depend on who else uses its appender
+		cfg["appender.f.type"], cfg["appender.f.fileDir"], cfg["appender.f.fileName"], cfg["appender.f.layout.type"] = "File", dir, "t.log", lt
+		cfg["logger.lg.type"], cfg["logger.lg.appenderRef.ref"] = "Logger", "f"
+		cfg["logger.la.type"], cfg["logger.la.tags"], cfg["logger.la.appenderRef.ref"], cfg["logger.la.bufferFullPolicy"] = "AsyncLogger", "c20other", "f", []string{"Discard", "Block"}[k%2]
 	case "filelogger":
 		cfg["logger.lg.type"], cfg["logger.lg.fileDir"], cfg["logger.lg.fileName"], cfg["logger.lg.layout.type"] = "File", dir, "t.log", lt
 	case "rollinglogger":
@@ -329,7 +335,7 @@ func c20one(w *W, kind, layout string, G, N, k int, mode string, idx int) {
 }
 
 func c20Worker(w *W) {
-	kinds := []string{"file", "rolling", "console", "loggerlayout-file", "filelogger", "rollinglogger", "consolelogger", "loggerlayout-2files", "2files"}
+	kinds := []string{"file", "rolling", "console", "loggerlayout-file", "filelogger", "rollinglogger", "consolelogger", "loggerlayout-2files", "2files", "shared-file"}
 	layouts := []string{"text", "json"}
 	idx := 0
 	N := 40
@@ -397,7 +403,7 @@ func init() {
 	subcommands["c20child"] = c20child
 	register(&Prop{
 		ID: "C20", Level: "fault_enumeration", MinDistinct: 50, Worker: c20Worker,
-		Rule: "crash points: a child process logs through a synchronous logger to {File appender, RollingFile appender, Console appender (stdout redirected to a file), logger-level layout + File appender, one logger (with and without its own layout) over two File appenders and a RollingFile appender - the line must be in all three targets -, File logger, RollingFile logger (separate), Console logger} x {Text, JSON} from 1 or 4 goroutines (goroutine 0 alternates 300 KB lines so that others arrive while a long write is in progress), acknowledging every returned call on a pipe; " +
+		Rule: "crash points: a child process logs through a synchronous logger to {File appender, RollingFile appender, Console appender (stdout redirected to a file), logger-level layout + File appender, one logger (with and without its own layout) over two File appenders and a RollingFile appender - the line must be in all three targets -, a File appender shared with an asynchronous logger that serves another tag, File logger, RollingFile logger (separate), Console logger} x {Text, JSON} from 1 or 4 goroutines (goroutine 0 alternates 300 KB lines so that others arrive while a long write is in progress), acknowledging every returned call on a pipe; " +
 			"the process is destroyed right after acknowledgement #k for k on a 10-point grid over 1..40 (thorough: every k) by SIGKILL from inside, by os.Exit(0) without Destroy, and by SIGKILL from the parent after it has read k acknowledgements; in 'contended' runs the process kills itself the moment a call returns while goroutine 0 is still inside one of its long log calls (for the three plain-file kinds also with the target replaced by a FIFO that the parent drains slowly, so that the long write stays in progress for milliseconds); for rolling kinds additional runs cross a real 1 s boundary and SIGKILL the process from inside rotate() at one of three guarded yield points after lingering there 25 ms while the other goroutines keep logging and acknowledging. " +
 			"Rolling kinds are also run across two real boundaries with maxAge in {24, 999999, 100000, 1} hours and then simply exit (retention scans have run in between). Oracle (parent, after the child is dead): every acknowledged id has a complete '\\n'-terminated line ending in the event's last field in the target. Non-trivial/distinct = distinct (kind, layout, goroutines, crash mode, k) crash points at which all acknowledged lines were present.",
 		Assumptions: []string{"'in the target' means in the file as seen by another process (page cache), not on stable storage: the statement is about user-space buffering, not fsync", "acknowledgements are written after the log call returned, under a mutex together with the crash decision"},
